@@ -353,6 +353,172 @@ fn pins(src: &mut Src) -> Result<String, String> {
     Ok(o)
 }
 
+// ---------------------------------------------------------------- G7 vmem system calls
+
+fn strip_cast(e: &Expr) -> &Expr {
+    match e {
+        Expr::Cast(c) => strip_cast(&c.expr),
+        Expr::Paren(p) => strip_cast(&p.expr),
+        _ => e,
+    }
+}
+
+/// `size`, `N * size` (casts ignored) → N, in units of `size = size_of_val(value)`.
+fn size_mul(e: &Expr) -> Result<u64, String> {
+    let e = strip_cast(e);
+    let s = q(e);
+    if s == "size" || s == "size_of_val(value)" { return Ok(1); }
+    if let Expr::Binary(b) = e {
+        if matches!(b.op, syn::BinOp::Mul(_)) {
+            let (l, r) = (strip_cast(&b.left), strip_cast(&b.right));
+            if let Expr::Lit(syn::ExprLit { lit: syn::Lit::Int(i), .. }) = l { return Ok(i.base10_parse::<u64>().map_err(|e| e.to_string())? * size_mul(r)?); }
+            if let Expr::Lit(syn::ExprLit { lit: syn::Lit::Int(i), .. }) = r { return Ok(i.base10_parse::<u64>().map_err(|e| e.to_string())? * size_mul(l)?); }
+        }
+    }
+    Err(format!("length `{s}` is not a multiple of `size`"))
+}
+
+fn flatten_or(e: &Expr, out: &mut Vec<String>) {
+    match strip_cast(e) {
+        Expr::Binary(b) if matches!(b.op, syn::BinOp::BitOr(_)) => { flatten_or(&b.left, out); flatten_or(&b.right, out); }
+        x => out.push(q(x)),
+    }
+}
+
+fn flatten_mul(e: &Expr, out: &mut Vec<String>) {
+    match strip_cast(e) {
+        Expr::Binary(b) if matches!(b.op, syn::BinOp::Mul(_)) => { flatten_mul(&b.left, out); flatten_mul(&b.right, out); }
+        x => out.push(q(x)),
+    }
+}
+
+struct Calls<'a> { found: Vec<(String, &'a syn::ExprCall)> }
+impl<'a> Visit<'a> for Calls<'a> {
+    fn visit_expr_call(&mut self, c: &'a syn::ExprCall) {
+        let f = q(&c.func);
+        for n in ["mmap", "memcpy", "munmap", "copy_nonoverlapping", "copy", "memmove", "mremap", "memfd_create", "shm_open", "ftruncate"] {
+            if f == format!("libc::{n}") || f == format!("ptr::{n}") || f == format!("core::ptr::{n}") || f == n { self.found.push((n.to_string(), c)); }
+        }
+        syn::visit::visit_expr_call(self, c);
+    }
+}
+
+fn vmem_calls(src: &mut Src) -> Result<String, String> {
+    let mut o = String::new();
+    let helper = "src/ring_buffer/storage/heap/vmem_helper.rs";
+    let file = src.file(helper)?.clone();
+    let f = find_fn(&file, "", "new").ok_or("vmem_helper::new not found")?;
+    let body = f.block;
+    // `size` must be the byte size of the source slice
+    let txt = quote::quote!(#body).to_string().replace(' ', "");
+    if !txt.contains("letsize=size_of_val(value);") { return Err("vmem_helper::new: `let size = size_of_val(value);` not found".into()); }
+    o.push_str(&format!("def vmemAssertsPageMultiple : Bool := {}\n", txt.contains("assert_eq!(value.len()%page_size,0")));
+    let mut v = Calls { found: vec![] };
+    v.visit_block(body);
+    let mut maps = vec![];
+    let mut copies = vec![];
+    // names bound to the first mapping: `buffer` (the mmap result) and `r` (its cast)
+    let fresh = |s: &str| s == "r" || s == "buffer";
+    for (n, c) in &v.found {
+        let a: Vec<&Expr> = c.args.iter().collect();
+        match n.as_str() {
+            "mmap" => {
+                if a.len() != 6 { return Err("mmap: 6 arguments expected".into()); }
+                let addr = q(strip_cast(a[0]));
+                let at = if addr == "ptr::null_mut()" || addr == "core::ptr::null_mut()" { "none".to_string() }
+                    else if fresh(&addr) { "some 0".to_string() }
+                    else if let Expr::MethodCall(m) = strip_cast(a[0]) {
+                        if fresh(&q(&m.receiver)) && m.method == "byte_add" && m.args.len() == 1 { format!("some {}", size_mul(&m.args[0])?) } else { return Err(format!("mmap address `{addr}`")); }
+                    } else { return Err(format!("mmap address `{addr}`")); };
+                let len = size_mul(a[1])?;
+                let mut prot = vec![]; flatten_or(a[2], &mut prot);
+                if !(prot.contains(&"libc::PROT_READ".to_string()) && prot.contains(&"libc::PROT_WRITE".to_string())) { return Err("mmap: not readable and writable".into()); }
+                let mut fl = vec![]; flatten_or(a[3], &mut fl);
+                let fl: Vec<String> = fl.iter().map(|x| match x.as_str() {
+                    "libc::MAP_PRIVATE" => ".priv".into(), "libc::MAP_SHARED" => ".shared".into(), "libc::MAP_ANONYMOUS" | "libc::MAP_ANON" => ".anon".into(),
+                    "libc::MAP_FIXED" => ".fixed".into(), _ => ".other".to_string() }).collect();
+                let fd = q(strip_cast(a[4]));
+                let fd = if fd == "-1" { "false" } else { "true" };
+                let off = q(strip_cast(a[5]));
+                if off != "0" { return Err(format!("mmap offset `{off}`")); }
+                maps.push(format!("{{ fixedAt := {at}, lenMul := {len}, flags := [{}], hasFd := {fd} }}", fl.join(", ")));
+            }
+            "memcpy" | "copy_nonoverlapping" | "copy" | "memmove" => {
+                if a.len() != 3 { return Err(format!("{n}: 3 arguments expected")); }
+                let end = |e: &Expr| -> Result<&'static str, String> {
+                    let s = q(strip_cast(e));
+                    if s == "value.as_ptr()" || s == "value.as_mut_ptr()" { Ok(".source") } else if fresh(&s) { Ok(".fresh") } else { Err(format!("copy end `{s}`")) }
+                };
+                // memcpy/memmove(dst, src, n); ptr::copy*(src, dst, n)
+                let (d, s_) = if n == "memcpy" || n == "memmove" { (end(a[0])?, end(a[1])?) } else { (end(a[1])?, end(a[0])?) };
+                let units = if n == "memcpy" || n == "memmove" { size_mul(a[2])? } else { let l = q(strip_cast(a[2])); if l == "value.len()" { 1 } else { return Err(format!("copy length `{l}`")); } };
+                copies.push(format!("{{ dst := {d}, src := {s_}, lenMul := {units} }}"));
+            }
+            other => return Err(format!("vmem_helper::new calls `{other}`, which the mapping model does not cover")),
+        }
+    }
+    o.push_str(&format!("def vmemMmapCalls : List MmapCall := [\n  {}]\n", maps.join(",\n  ")));
+    o.push_str(&format!("def vmemCopies : List CopyCall := [{}]\n", copies.join(", ")));
+    // what `new` returns
+    let ret = match body.stmts.last() {
+        Some(Stmt::Expr(Expr::Unsafe(u), None)) => match u.block.stmts.last() { Some(Stmt::Expr(e, None)) => q(e), _ => return Err("vmem_helper::new: no tail expression".into()) },
+        _ => return Err("vmem_helper::new: body does not end in an unsafe block".into()),
+    };
+    o.push_str(&format!("def vmemReturnsFirstMapping : Bool := {}\n", fresh(&ret)));
+
+    // HeapStorage::drop under cfg(feature = "vmem")
+    let file = src.file("src/ring_buffer/storage/heap/mod.rs")?.clone();
+    let f = find_fn(&file, "DropforHeapStorage<T>", "drop").ok_or("Drop for HeapStorage not found")?;
+    let stmts: Vec<&Stmt> = match f.block.stmts.as_slice() {
+        [Stmt::Expr(Expr::Unsafe(u), _)] => u.block.stmts.iter().collect(),
+        _ => f.block.stmts.iter().collect(),
+    };
+    let mut sel = vec![];
+    for st in stmts {
+        let attrs: &[syn::Attribute] = match st {
+            Stmt::Local(l) => &l.attrs,
+            Stmt::Expr(e, _) => match e { Expr::Call(c) => &c.attrs, Expr::MethodCall(c) => &c.attrs, Expr::Macro(c) => &c.attrs, Expr::Block(c) => &c.attrs, Expr::If(c) => &c.attrs, Expr::ForLoop(c) => &c.attrs, Expr::While(c) => &c.attrs, _ => &[] },
+            Stmt::Macro(m) => &m.attrs,
+            _ => &[],
+        };
+        let a: String = attrs.iter().map(|a| quote::quote!(#a).to_string().replace(' ', "")).collect();
+        if a.contains("cfg(not(feature=\"vmem\"))") { continue; }
+        sel.push(st);
+    }
+    let mut un = None;
+    let mut destroys = false;
+    for st in &sel {
+        let t = quote::quote!(#st).to_string().replace(' ', "");
+        if t.contains("drop_in_place") || t.contains("from_raw") || t.contains("assume_init_drop") || t.contains("ptr::read") || t.contains("take_inner") { destroys = true; }
+        let mut v = Calls { found: vec![] };
+        v.visit_stmt(st);
+        for (n, c) in v.found { if n == "munmap" { un = Some(c.clone()); } }
+    }
+    let un = un.ok_or("HeapStorage::drop (vmem): no munmap call")?;
+    let a: Vec<&Expr> = un.args.iter().collect();
+    if a.len() != 2 { return Err("munmap: 2 arguments expected".into()); }
+    let at = q(strip_cast(a[0]));
+    if at != "self.inner" { return Err(format!("munmap address `{at}`")); }
+    let mut fs = vec![]; flatten_mul(a[1], &mut fs);
+    let (mut k, mut nl, mut ns) = (1u64, 0, 0);
+    for f in fs {
+        if let Ok(n) = f.parse::<u64>() { k *= n; }
+        else if f == "self.len" { nl += 1; }
+        else if f == "size_of::<T>()" || f == "core::mem::size_of::<T>()" || f == "size_of::<UnsafeSyncCell<T>>()" { ns += 1; }
+        else { return Err(format!("munmap length factor `{f}`")); }
+    }
+    o.push_str(&format!("def vmemMunmap : MunmapLen := {{ const := {k}, lenPow := {nl}, sizePow := {ns} }}\n"));
+    o.push_str(&format!("def vmemDropDestroysItems : Bool := {destroys}\n"));
+    // HeapStorage::new (vmem): the length recorded is the length of the source
+    let news: Vec<String> = file.items.iter().filter_map(|it| if let syn::Item::Impl(i) = it { Some(i) } else { None })
+        .flat_map(|i| i.items.iter()).filter_map(|it| if let syn::ImplItem::Fn(f) = it { Some(f) } else { None })
+        .filter(|f| f.sig.ident == "new" && f.attrs.iter().any(|a| quote::quote!(#a).to_string().replace(' ', "") == "#[cfg(feature=\"vmem\")]"))
+        .map(|f| { let b = &f.block; quote::quote!(#b).to_string().replace(' ', "") }).collect();
+    if news.len() != 1 { return Err("HeapStorage::new (vmem) not found".into()); }
+    o.push_str(&format!("def vmemStorageNew : String := \"{}\"\n", news[0].replace('"', "'")));
+    Ok(o)
+}
+
 // ---------------------------------------------------------------- G5 Send/Sync impls, G6 wake sites
 
 fn all_rs(dir: &std::path::Path, out: &mut Vec<std::path::PathBuf>) {
@@ -539,5 +705,6 @@ pub fn table_items(src: &mut Src, items: &mut Vec<Item>) {
     add("sendSync", "every `unsafe impl Send/Sync`, `impl ConcurrentRB`, struct fields, wake call sites under src/", send_sync(src));
     add("asyncDelegation", "src/iterators/async_iterators/*.rs: which synchronous method each future runs; MRBFuture::poll", async_delegation(src));
     add("loops", "every function of the iterators / buffer variants / wrappers that contains a loop", loops(src));
+    add("vmemCalls", "src/ring_buffer/storage/heap/vmem_helper.rs::new, Drop for HeapStorage (vmem): mmap/memcpy/munmap arguments", vmem_calls(src));
     add("pins", "cell primitives (check_zeroed, take_inner, inner_duplicate, Drop) and copy_from_slice_unchecked", pins(src));
 }
